@@ -176,6 +176,9 @@ def gen_queries(rng, kind, meta):
             for mask in range(1, 2 ** naxes):
                 if rng.random() < 0.6 or mask == 2 ** naxes - 1:
                     n = rng.randint(1, 3)
+                    layout = None
+                    if mask == 2 ** naxes - 1 and rng.random() < 0.5:
+                        n, layout = rng.choice([2, 4, 6]), "fortran2d"      # every argument an array, passed as transposed 2-D views
                     pts = []
                     t0, _ = pick_t(rng, meta, "inside")
                     z0, _ = pick_z(rng, meta, "inside")
@@ -195,7 +198,7 @@ def gen_queries(rng, kind, meta):
                         pts = [(tt, p[1], p[2]) for p in pts]
                         intq = True
                     sc = [add(p[0], p[1], p[2], "scalar-of-vec", None, fn) for p in pts]
-                    add(None, None, None, "vec", sc, fn, arrays={"pts": pts, "isarr": isarr}, intq=intq)
+                    add(None, None, None, "vec", sc, fn, arrays={"pts": pts, "isarr": isarr, "layout": layout}, intq=intq)
     return qs
 
 
@@ -218,7 +221,7 @@ def impl_query(q, axes):
                     cols.append(["int", int(vals[0])])
                 else:
                     cols.append(hx(vals[0]))
-        return {"args": cols, "fn": q["fn"]}
+        return {"args": cols, "fn": q["fn"], "layout": q["arrays"].get("layout")}
     args = []
     for ax in axes:
         v = q["tuz".index(ax)] if False else {"t": q["t"], "u": q["u"], "z": q["z"]}[ax]
